@@ -19,13 +19,10 @@
     Twalkgetattr, Tattach, Txattrwalk, Tlcreate bind; Tlopen, Txattrcreate, Twrite update; Tclunk,
     Tremove unbind) and that no other fid's view changes except by fencing.  These branches are
     checked by the differential on every run (Server/Cases.v [c04_step], [step_agrees]).
-    The history lift excludes histories in which a rename was cut short by a panic
-    ([no_broken_rename]): renameChildTo drops the old parent's reference before re-parenting the
-    moved fidRef, so a panic in that DecRef's Close really breaks the ledger (observation, not a
-    property of C04). *)
+    (The former exclusion of renames cut short by a panic is gone with fix edcb06d.) *)
 From Coq Require Import NArith ZArith List String Bool.
 From P9V Require Import Base.Str gen.ConstGen gen.HandlerGen Server.State Server.Msg Server.SessionSpec Server.Handlers
-  Server.Summaries Server.NameProofs Server.SummaryProofs Server.SpecProofs Server.FaultProofs Server.Ledger Server.Refine Server.TableFrame.
+  Server.Summaries Server.NameProofs Server.SummaryProofs Server.SpecProofs Server.FaultProofs Server.Ledger Server.Refine Server.TableFrame Server.RefineOk.
 Import ListNotations.
 Open Scope N_scope.
 
@@ -160,12 +157,10 @@ Proof. intros; split; intros; [apply auth_enosys|apply attach_authfid; auto]. Qe
 (** ---- the invariant ---- *)
 Theorem C04_inv_init : Ledger init_state.
 Proof. exact ledger_init. Qed.
-Theorem C04_inv_step : forall s c m tape,
-  Ledger s -> (is_rename m = true -> snd (fst (fst (step s c m tape))) <> RErr linux_EFAULT) ->
-  Ledger (fst (fst (fst (step s c m tape)))).
+Theorem C04_inv_step : forall s c m tape, Ledger s -> Ledger (fst (fst (fst (step s c m tape)))).
 Proof. exact ledger_step. Qed.
 Print Assumptions C04_inv_step.
-Theorem C04_inv_every_history : forall h, no_broken_rename init_state h -> Ledger (Refine.run init_state h).
+Theorem C04_inv_every_history : forall h, Ledger (Refine.run init_state h).
 Proof. exact ledger_every_history. Qed.
 Theorem C04_bound_fid_holds_reference : forall s k r,
   Ledger s -> tlookup k (st_fids s) = Some r -> Z.le 1 (refsZ s r).
@@ -191,7 +186,6 @@ Proof. exact refines_refusals_spec. Qed.
 
 (** for every history (induction over the request list, all tapes) *)
 Theorem C04_refusals_every_history : forall h c m tape e,
-  no_broken_rename init_state h ->
   let s := Refine.run init_state h in
   spec_reject (abs_state s) c m = Some e ->
   (forall f, m = Tremove f -> tlookup (c, f) (st_fids s) = None) ->
@@ -206,18 +200,32 @@ Theorem C04_other_fids_untouched : forall s c m tape c' f',
 Proof. exact other_fids_untouched. Qed.
 Print Assumptions C04_other_fids_untouched.
 
-(** what is proved of [abs (step s) = spec_step (abs s)]: the refusal half exactly, and of the other
-    half the table frame; missing: the exact binding effects of the requests that pass the table
-    (see the header) *)
+(** ---- refinement of whole requests: [refines_at s c m tape] says that for some backend outcome [o]
+    and fence the reply class, the bindings of every fid of every connection and the negotiated sizes
+    after [step] are those of [spec_step (abs_state s) c m o fence] ---- *)
+Theorem C04_refines_covered : forall s c m tape,
+  Ledger s -> tinj s -> covered m = true -> refines_at s c m tape.
+Proof. exact refines_covered. Qed.
+Print Assumptions C04_refines_covered.
+
+(** [covered]: Tversion, Tflush, Tauth, unhandled types, Tgetattr, Tsetattr, Tlopen, Tread, Twrite,
+    Treaddir, Tfsync, Tstatfs, Tlock, Treadlink, Tmkdir, Tmknod, Tsymlink, Tlink, Txattrcreate (with
+    their Tu* variants) -- refused or not, all tapes (errors, EOF, panics).
+    NOT YET COVERED by a whole-request refinement (their refusals are, by [C04_refines_refusals]; their
+    table frame is, by [C04_other_fids_untouched]): Tclunk, Tremove, Twalk, Twalkgetattr, Tattach,
+    Tlcreate, Txattrwalk, Tunlinkat, Trename, Trenameat.  Also open: that [tinj] (a fidRef is bound to
+    at most one fid) holds after every history (it needs the inserted fidRefs to be fresh). *)
 Theorem C04_refines_partial : forall s c m tape,
-  Ledger s ->
+  Ledger s -> tinj s ->
+  (covered m = true -> refines_at s c m tape) /\
   (forall e, spec_reject (abs_state s) c m = Some e ->
              (forall f, m = Tremove f -> tlookup (c, f) (st_fids s) = None) ->
              step s c m tape = (s, RErr e, [], tape)) /\
   (forall c' f', touches c m (c', f') = false ->
                  tlookup (c', f') (st_fids (fst (fst (fst (step s c m tape))))) = tlookup (c', f') (st_fids s)).
 Proof.
-  intros s c m tape HL. split.
+  intros s c m tape HL Hinj. split; [|split].
+  - intros Hc. apply refines_covered; assumption.
   - intros e Hr Hrm. apply refines_refusals; assumption.
   - intros c' f' HT. apply other_fids_untouched; assumption.
 Qed.
